@@ -44,7 +44,7 @@ Definition strip_meta_ik (t : tid) (s' : state) : state :=
           with_threads s' (set_thread (threads s') t
             {| t_req := t_req th; t_pc := t_pc th; t_postings := t_postings th; t_unb := t_unb th; t_view := t_view th;
                t_entry := option_map strip_entry (t_entry th); t_txid := t_txid th; t_granted := t_granted th;
-               t_resp := t_resp th; t_gen := t_gen th |})
+               t_resp := t_resp th; t_gen := t_gen th; t_cancelled := t_cancelled th |})
       | _, _ => s'
       end
   | None => s'
@@ -133,3 +133,79 @@ Proof.
   assert (Heq : e_ik e = rq_ik (t_req th)) by congruence.
   pose proof (H 2 th None e Hth Hresp Hdry Hk Hin Heq) as C. rewrite Etx in C. discriminate.
 Qed.
+
+(* ---- cancellation of a queued request (ACancel / AResumeCancelled), non-vacuity --------------------------------------- *)
+Definition e2_full (t : tid) (rq : request) : list action := AStart t rq :: e2_rs t 8 ++ [APersistOk] ++ e2_rs t 3.
+(* account 1 is funded with 200; request 1 (1 -> 2, no key) holds the account locks, parked at "locked";
+   request 2 (1 -> 3, key 7, reference 9) has taken its key and its reference and queues behind it *)
+Definition e2_pay79 : request := e2_req KCreate 7 9 [(1%N, 3%N, 100%Z)] 0.
+Definition e2_cancel_prefix : list action :=
+  e2_full 0 (e2_req KCreate 0 0 [(world, 1%N, 200%Z)] 0) ++
+  [AStart 1 (e2_req KCreate 0 0 [(1%N, 2%N, 100%Z)] 0); AStart 2 e2_pay79] ++ e2_rs 1 1 ++ e2_rs 2 5.
+(* ... its context is cancelled, it gives up; a NEW request 3 with the same key and reference takes both, queues,
+   request 1 completes (which grants 3), 3 runs to the end *)
+Definition e2_cancel_retry : list action :=
+  [AStart 3 e2_pay79] ++ e2_rs 3 5 ++ e2_rs 1 6 ++ [APersistOk] ++ e2_rs 1 4 ++ e2_rs 3 8 ++ [APersistOk] ++ e2_rs 3 3.
+
+Lemma e2_cancel_prefix_state :
+  (exists s th2, run init e2_cancel_prefix = Some s /\ get_thread (threads s) 2 = Some th2 /\
+    t_pc th2 = PEnqueued /\ t_granted th2 = false /\ v_queue s = [2] /\ v_iks s = [7%N] /\ v_refs s = [9%N]) /\
+  run init (e2_cancel_prefix ++ [AResumeCancelled 2]) = None.   (* not enabled before the context is cancelled *)
+Proof. vm_compute. split; [|reflexivity]. eexists. eexists. repeat split. Qed.
+
+Lemma e2_cancel_gives_up :
+  exists s th2, run init (e2_cancel_prefix ++ [ACancel 2; AResumeCancelled 2]) = Some s /\
+    get_thread (threads s) 2 = Some th2 /\ t_pc th2 = PFinished /\ t_resp th2 = Some (RErr ELockCancelled) /\
+    t_entry th2 = None /\ v_queue s = [] /\ v_iks s = [] /\ v_refs s = [] /\
+    map e_owner (persisted s) = [0] /\ v_pending s = [] /\ v_batch s = None.
+Proof. vm_compute. eexists. eexists. repeat split. Qed.
+
+Lemma e2_cancel_then_retry :
+  exists s th2 th3,
+    run init (e2_cancel_prefix ++ [ACancel 2; AResumeCancelled 2] ++ e2_cancel_retry) = Some s /\
+    get_thread (threads s) 2 = Some th2 /\ get_thread (threads s) 3 = Some th3 /\
+    rq_ik (t_req th2) = 7%N /\ rq_ref (t_req th2) = 9%N /\ t_req th3 = t_req th2 /\
+    t_resp th2 = Some (RErr ELockCancelled) /\ t_resp th3 = Some (ROk (Some 2)) /\
+    map (fun e => (e_owner e, e_ik e, e_ref e)) (persisted s) = [(0, 0%N, 0%N); (1, 0%N, 0%N); (3, 7%N, 9%N)] /\
+    count_where (fun e => N.eqb (e_ik e) 7) (persisted s) = 1 /\
+    count_where (fun e => N.eqb (e_ref e) 9) (persisted s) = 1 /\
+    v_iks s = [] /\ v_refs s = [] /\ v_locks s = [] /\ v_queue s = [].
+Proof. vm_compute. eexists. eexists. eexists. repeat split. Qed.
+
+(* the other branch: the intent was granted meanwhile (request 1 completed) AND the context is done: both
+   [AResume 2] and [AResumeCancelled 2] are enabled; the latter gives the granted locks back *)
+Definition e2_cancel_granted_prefix : list action :=
+  e2_cancel_prefix ++ [ACancel 2] ++ e2_rs 1 6 ++ [APersistOk] ++ e2_rs 1 4.
+Lemma e2_cancel_granted :
+  exists s0 th0 s th2,
+    run init e2_cancel_granted_prefix = Some s0 /\
+    get_thread (threads s0) 2 = Some th0 /\ t_pc th0 = PEnqueued /\ t_granted th0 = true /\ t_cancelled th0 = true /\
+    map (fun h => fst (fst h)) (v_locks s0) = [2] /\
+    run init (e2_cancel_granted_prefix ++ [AResume 2]) <> None /\
+    run init (e2_cancel_granted_prefix ++ [AResumeCancelled 2]) = Some s /\
+    get_thread (threads s) 2 = Some th2 /\ t_resp th2 = Some (RErr ELockCancelled) /\
+    v_locks s = [] /\ v_queue s = [] /\ v_iks s = [] /\ v_refs s = [] /\ map e_owner (persisted s) = [0; 1].
+Proof. vm_compute. eexists. eexists. eexists. eexists. repeat split. discriminate. Qed.
+
+(* a revert: transaction 1 (1 -> 2, 100) is on disk; request 2 (1 -> 2, 50) holds the locks; revert request 3 of
+   transaction 1 holds the revert reservation and queues; cancelled, it gives the reservation back; a new revert
+   request 4 takes it, waits for request 2, and is the one revert of transaction 1 *)
+Definition e2_rev1 : request := e2_req KRevert 0 0 [] 1.
+Definition e2_cancel_rev_prefix : list action :=
+  e2_full 0 (e2_req KCreate 0 0 [(world, 1%N, 200%Z)] 0) ++ e2_full 1 (e2_req KCreate 0 0 [(1%N, 2%N, 100%Z)] 0) ++
+  [AStart 2 (e2_req KCreate 0 0 [(1%N, 2%N, 50%Z)] 0); AStart 3 e2_rev1] ++ e2_rs 2 1 ++ e2_rs 3 3.
+Definition e2_cancel_rev_retry : list action :=
+  [AStart 4 e2_rev1] ++ e2_rs 4 3 ++ e2_rs 2 6 ++ [APersistOk] ++ e2_rs 2 4 ++ e2_rs 4 8 ++ [APersistOk] ++ e2_rs 4 3.
+
+Lemma e2_cancel_rev_then_retry :
+  exists s0 th0 s1 s th3 th4,
+    run init e2_cancel_rev_prefix = Some s0 /\ get_thread (threads s0) 3 = Some th0 /\ t_pc th0 = PEnqueued /\
+    v_revs s0 = [1] /\
+    run init (e2_cancel_rev_prefix ++ [ACancel 3; AResumeCancelled 3]) = Some s1 /\
+    v_revs s1 = [] /\ persisted s1 = persisted s0 /\
+    run init (e2_cancel_rev_prefix ++ [ACancel 3; AResumeCancelled 3] ++ e2_cancel_rev_retry) = Some s /\
+    get_thread (threads s) 3 = Some th3 /\ get_thread (threads s) 4 = Some th4 /\
+    t_resp th3 = Some (RErr ELockCancelled) /\ t_resp th4 = Some (ROk (Some 3)) /\
+    map (fun e => (e_owner e, e_reverts e)) (persisted s) = [(0, None); (1, None); (2, None); (4, Some 1)] /\
+    v_revs s = [].
+Proof. vm_compute. eexists. eexists. eexists. eexists. eexists. eexists. repeat split. Qed.
